@@ -28,6 +28,8 @@ EXPLANATION = (
     ' R02.4 also carries the identity test (shared with C04 R04.5): Matrix.is_identity compares all six entries'
     ' - spelled out or as all(... zip(entries, constants)), where the shorter operand decides - because every'
     ' decomposition skips the multiplication when it answers true.'
+    ' R02.9: the direction clause of C06 R06.5 (a transformed round shape is traversed the other way round'
+    ' exactly when the determinant is negative; the criterion used is part of the finding key) runs here too.'
 )
 TECHNIQUE = (
     "static analysis (no execution): field-coverage lint over segment classes (constructor fields vs fields touched by *=, __getitem__, __copy__, __eq__); def-use closure for copy-then-multiply; operator type-dispatch following over the class hierarchy; exact canonical forms for reify algebra"
